@@ -114,6 +114,7 @@ def plan_seq(pid, tier, seed, ncpu):
 
     extra_floors = {}
     extra_rule = ""
+    fault_rule = ""
     m10 = 1 if tier == "quick" else 10
 
     def jobs(bindirs, workdir, known):
@@ -123,6 +124,10 @@ def plan_seq(pid, tier, seed, ncpu):
             js += seq_jobs(bindirs["dbg"], workdir, known, pid, p, total * s // shares, ops, seed, n)
         # long histories (200-400 ops): reach the 64-op flush points of the read / write logs without sync()
         js += seq_jobs(bindirs["dbg"], workdir, known, pid, profiles[0][0], max(200, total // 40), 400, seed, 2, prefix="long")
+        if pid in ("C01", "C05", "C06", "C07", "C03", "C10", "C16"):
+            # injected faults: the caller's own callbacks (V::clone, weigher, predicate) panic at a chosen call; a call that
+            # panicked after changing anything is of unknown outcome (both possibilities are kept), everything else is judged as usual
+            js += seq_jobs(bindirs["dbg"], workdir, known, pid, "fault", scale(tier, 40000, 1000000), 50, seed, 2, prefix="fault")
         if pid in ("C12", "C13", "C03", "C04", "C10"):
             # un-synced batches on the concurrent cache, judged by the batch model (reads first, then writes in queue order)
             js += seq_jobs(bindirs["dbg"], workdir, known, pid, "batch", scale(tier, 80000, 2000000), 60, seed, 4, prefix="batch")
@@ -193,9 +198,13 @@ def plan_seq(pid, tier, seed, ncpu):
                       "history like a get spanning the iteration (no value replaced, invalidated or expired by an operation that completed before it began; no key twice).")
     fl = {k: int(v * (1 if tier == "quick" else min(mult, 10))) for k, v in floors.items()}
     fl.update(extra_floors)
+    if pid in ("C01", "C05", "C06", "C07", "C03", "C10", "C16"):
+        fl["faults_fired"] = 1000 * m10
+        fault_rule = (" Fault clause: in a share of the histories a callback of the caller (V::clone, the weigher, the predicate of invalidate_entries_if) panics at a chosen "
+                       "call of the next operation; if nothing at all changed the operation did not happen, otherwise the ground truth keeps both outcomes; lookups are judged as always.")
     variants = ["dbg"] + (["rel"] if pid in ("C03", "C04", "C10") else []) + (["dbg0"] if pid in ("C04", "C10") else [])
     return dict(variants=variants, jobs=jobs, floors=fl,
-                rule=rule + extra_rule, assumptions=COMMON_ASSUMPTIONS + (CON_ASSUMPTIONS[len(COMMON_ASSUMPTIONS):] if extra_rule else []),
+                rule=rule + extra_rule + fault_rule, assumptions=COMMON_ASSUMPTIONS + (CON_ASSUMPTIONS[len(COMMON_ASSUMPTIONS):] if extra_rule else []),
                 watchdog_s=scale(tier, 900, 7200))
 
 
@@ -282,7 +291,7 @@ def plan_c09(pid, tier, seed, ncpu):
         js += con_jobs(bindirs["dbg"], workdir, known, pid, "burstn", seed, 2, rounds=scale(tier, 12, 200))
         js += con_jobs(bindirs["dbg"], workdir, known, pid, "stress", seed, 2, programs=scale(tier, 200, 6000), schedules=scale(tier, 5, 10))
         # single-threaded multi-step histories under the progress guard (bounded maintenance loops)
-        for prof in ("capacity", "general", "safety"):
+        for prof in ("capacity", "general", "safety", "fault"):
             js += seq_jobs(bindirs["dbg"], workdir, known, pid, prof, scale(tier, 60000, 1500000), 50, seed, 2, prefix="c09seq")
         if tier == "thorough":
             js += con_jobs(bindirs["rel"], workdir, known, pid, "burst1", seed + 7, 2, rounds=400, variant="rel")
@@ -542,6 +551,8 @@ def plan_c08_c11(pid, tier, seed, ncpu):
         d = bindirs["dbg"]
         js += seq_jobs(d, workdir, known, pid, "safety", scale(tier, 120000, 3000000), 50, seed, 6, extra=["--drop-percent", "25"])
         js += seq_jobs(d, workdir, known, pid, "capacity", scale(tier, 40000, 800000), 50, seed, 2, extra=["--drop-percent", "10"])
+        # injected faults: panics in the caller's own callbacks must leave a cache that later calls can use without internal panics or memory errors
+        js += seq_jobs(d, workdir, known, pid, "fault", scale(tier, 60000, 1500000), 50, seed, 2, extra=["--drop-percent", "10"], prefix="fault")
         js += con_jobs(d, workdir, known, pid, "baton", seed, 2, programs=scale(tier, 800, 20000), schedules=10)
         js += con_jobs(d, workdir, known, pid, "stress", seed, 2, programs=scale(tier, 160, 6000), schedules=5)
         js += con_jobs(d, workdir, known, pid, "park", seed, 1, programs=scale(tier, 120, 2400), schedules=4)
@@ -550,6 +561,7 @@ def plan_c08_c11(pid, tier, seed, ncpu):
             js += sketch_jobs(d, workdir, known, pid, seed, 2, scale(tier, 2000000, 30000000), big=thorough)
         a = bindirs["asan"]
         aj = seq_jobs(a, workdir, known, pid, "safety", scale(tier, 16000, 600000), 50, seed + 1, scale(tier, 4, 8), extra=["--drop-percent", "25"], prefix="aseq")
+        aj += seq_jobs(a, workdir, known, pid, "fault", scale(tier, 8000, 300000), 50, seed + 1, 2, extra=["--drop-percent", "10"], prefix="afault")
         aj += con_jobs(a, workdir, known, pid, "stress", seed + 1, 2, programs=scale(tier, 100, 6000), schedules=5, variant="asan")
         aj += con_jobs(a, workdir, known, pid, "baton", seed + 1, 1, programs=scale(tier, 200, 6000), schedules=5, variant="asan")
         aj += con_jobs(a, workdir, known, pid, "chase", seed + 1, 1, programs=scale(tier, 40, 1500), schedules=3, variant="asan")
@@ -558,6 +570,7 @@ def plan_c08_c11(pid, tier, seed, ncpu):
         js += asan_wrap(aj, pid)
         specs = [("dequemon", ["--seed", str(seed * 13 + i), "--cases", str(scale(tier, 20, 150)), "--ops", "40"]) for i in range(scale(tier, 2, 4))]
         specs += [("seqmon", ["--profile", "safety", "--seed", str(seed * 17 + i), "--histories", str(scale(tier, 5, 60)), "--ops", "30", "--light", "1", "--drop-percent", "30"]) for i in range(scale(tier, 4, 8))]
+        specs += [("seqmon", ["--profile", "fault", "--seed", str(seed * 41 + i), "--histories", str(scale(tier, 5, 60)), "--ops", "30", "--light", "1"]) for i in range(scale(tier, 2, 4))]
         specs += [("conmon", ["--mode", "baton", "--seed", str(seed * 19 + i), "--programs", str(scale(tier, 2, 10)), "--schedules", "2", "--watchdog-secs", str(scale(tier, 240, 900))]) for i in range(scale(tier, 2, 4))]
         if thorough:
             specs += [("conmon", ["--mode", "stress", "--seed", str(seed * 23 + i), "--programs", "6", "--schedules", "2", "--watchdog-secs", "900",
@@ -579,6 +592,7 @@ def plan_c08_c11(pid, tier, seed, ncpu):
         "asan_lookups_get_hit": 1000, "asan_entries_left_invalidated": 1000, "asan_entries_left_ttl_expired": 300, "asan_entries_left_tti_expired": 300,
         "asan_entries_left_for_capacity": 300, "asan_caches_dropped_with_queued_ops": 100, "asan_deque_unlink_and_drop": 1000, "asan_quiescence_checks": 100,
         "miri_ops": 100, "miri_deque_unlink_and_drop": 10, "miri_deque_move_to_back": 10, "miri_quiescence_checks": 2,
+        "faults_fired": 1000 * m, "asan_faults_fired": 300, "miri_faults_fired": 1,
     }
     if thorough:
         floors.update({"tsan_gets_judged": 1000, "memcheck_ops": 10000})
@@ -588,7 +602,8 @@ def plan_c08_c11(pid, tier, seed, ncpu):
                 "node: the preconditions of memory unsafety); (2) the same binaries under AddressSanitizer + LeakSanitizer; (3) Miri (UB, use-after-free, data races, leaks) on "
                 "down-scaled workloads, Stacked Borrows (thorough: also Tree Borrows), plus ThreadSanitizer on free-running stress and valgrind memcheck on the release build "
                 "(thorough). Workloads: seeded sequential histories over all configurations with caches dropped mid-history with queued ops, concurrent programs (serialized "
-                "scheduler, contention programs, free-running), random op sequences on the intrusive list through the facade against a VecDeque model, and the sketch streams. "
+                "scheduler, contention programs, free-running), random op sequences on the intrusive list through the facade against a VecDeque model, and the sketch streams; "
+                "histories with injected faults (the caller's V::clone, weigher or predicate panics at a chosen call: the only panic allowed, and later calls must neither panic inside mini_moka nor touch freed memory). "
                 "Non-trivial: a history / program / list case that exercised at least one unlink or move path; distinct by fingerprint / case seed.")
     else:
         rule = ("instrumented key and value types carry a unique object id; a registry counts constructions, clones and drops and flags a second drop. At every quiescent point the "
